@@ -1209,7 +1209,12 @@ impl<'a> Rw<'a> {
     fn rewrite_macro(&mut self, mac: &Macro) -> Option<Expr> {
         let name = mac.path.segments.last().unwrap().ident.to_string();
         match name.as_str() {
-            "panic_with_error" | "panic" | "unreachable" | "symbol_short" | "format_args" | "matches" | "__vx_loop" | "__vx_iter" | "__vx_diverge" | "__vx_closure" => None,
+            "panic" => {
+                // T4: a plain `panic!(..)` in (unexpanded) source text: partial-correctness reading, like `panic_fmt` in expanded text
+                self.site("T4-panic");
+                Some(parse_quote!(sdk_panic(0u32)))
+            }
+            "panic_with_error" | "unreachable" | "symbol_short" | "format_args" | "matches" | "__vx_loop" | "__vx_iter" | "__vx_diverge" | "__vx_closure" => None,
             "vec" => {
                 // soroban vec![e, a, b, ...] -> Vec::from_array(e, [a, b, ...]) with rewritten elements
                 let parser = syn::punctuated::Punctuated::<Expr, Token![,]>::parse_terminated;
